@@ -274,7 +274,7 @@ pub fn run_e1(monitor: &str, scripts: &[Script], cfg: &Cfg, factory: MonFactory<
                 let world = World::new(s, observers, "particle-1");
                 let text = world.part.script.clone();
                 let mut mon = factory(s);
-                let cfg = &Cfg { ignore_tags: known.clone(), ..cfg.clone() };
+                let cfg = &Cfg { ignore_tags: known.clone(), deliver_return: cfg.deliver_return || cfg.deliver_return_families.iter().any(|f| f == &s.family), ..cfg.clone() };
                 let ex = netmc::explore(world, cfg, mon.as_mut());
                 let viols: Vec<Violation> = ex
                     .found
@@ -369,7 +369,7 @@ pub fn e1_report(property: &str, rule: &str, res: &E1Result, cfg: &Cfg, bounds: 
     rep.cov("rule", json!(rule));
     rep.cov("bounds", json!(bounds));
     rep.cov("deviation_bound", json!(cfg.max_deviations));
-    rep.cov("environment", json!({"duplicate_and_stale_delivery": cfg.dup, "deliver_with_results": cfg.deliver_return, "bogus_result_ids": cfg.bogus, "result_subsets": format!("all non-empty subsets up to {} pending", cfg.max_subset_pending)}));
+    rep.cov("environment", json!({"duplicate_and_stale_delivery": cfg.dup, "deliver_with_results": cfg.deliver_return, "deliver_with_results_for_families": cfg.deliver_return_families, "bogus_result_ids": cfg.bogus, "result_subsets": format!("all non-empty subsets up to {} pending", cfg.max_subset_pending)}));
     rep.cov("monitor_counters", res.extras.first().cloned().unwrap_or(Value::Null));
     rep.cov("samples", json!(res.samples));
     rep.cov(
